@@ -113,6 +113,12 @@ func c07Configs(env *engine.Env) []c07Config {
 		return Setting{Name: "default"}.doc([]model.Entry{{Src: fixture.LongSrcDir + "/payload.bin", Dst: "/opt/payload.bin"}, {Src: fixture.LongSrcDir + "/settings.conf", Dst: "/etc/settings.conf", Type: "config"},
 			{Src: fixture.LongSrcDir + "/*.conf", Dst: "/etc/globbed"}, {Src: "longsrc", Dst: "/opt/longsrc", Type: "tree"}}, root)
 	}})
+	// destinations that differ only in letter case (files, directories, links): one fixed order
+	out = append(out, c07Config{name: "case-twins", doc: func(env *engine.Env, root string) fixture.Doc {
+		return Setting{Name: "default"}.doc([]model.Entry{{Src: "doc/README", Dst: "/opt/seed/README"}, {Src: "etc/app.conf", Dst: "/opt/seed/readme"}, {Src: "bin/app", Dst: "/opt/seed/ReadMe"},
+			{Dst: "/opt/Data", Type: "dir"}, {Dst: "/opt/data", Type: "dir"}, {Src: "/t", Dst: "/opt/LINK", Type: "symlink"}, {Src: "/t", Dst: "/opt/link", Type: "symlink"},
+			{Src: "etc/app.conf", Dst: "/OPT/x"}, {Src: "etc/app.conf", Dst: "/Opt/x"}}, root)
+	}})
 	// owner and group names the build host knows too (daemon, bin, nobody), no maintainer configured: what the host's
 	// user database and the maintainer's environment variables say is not an input
 	out = append(out, c07Config{name: "host-known-owners", doc: func(env *engine.Env, root string) fixture.Doc {
